@@ -4,8 +4,9 @@ import Mathlib.Tactic.LinearCombination
 import Mathlib.Tactic.NormNum
 /-
   C09 — the numeric stages of the division, in exact arithmetic over an ordered field:
-  the rotation built from the quaternion `(1 + n·z, n×z)` (orthogonality, `M n = z`, the degenerate
-  direction `n = −z`), the round trip plane → xy-plane → plane, and the edge–plane intersection.
+  the rotation built from the quaternion `(1 + p·z, p×z)` of the ORIENTED plane normal `p = planeNormalOf n`
+  (`p = ±n`, `p·z ≥ 0`): orthogonality, `M p = z`, the raw construction's degenerate direction `p = −z` and why it is
+  never reached, the round trip plane → xy-plane → plane, and the edge–plane intersection.
   All statements are about `Gen.Division.*`, the definitions regenerated from the C++ text.
 -/
 namespace Simu
@@ -127,6 +128,117 @@ theorem quat_maps_normal (fn : Fn R) (n : V3 R) (hn : V3.normSq n = 1) (hne : n 
       div_eq_mul_inv, hr']
     linear_combination (1 - n.z) * hr + (2 * r ^ 2) * hn
 
+/-! ### the orientation of the plane normal (`plane_normal` of `map_points_to_xy_plane`) -/
+
+omit [IsStrictOrderedRing R] in
+/-- the local `plane_normal` is the division normal or its opposite … -/
+theorem planeNormalOf_cases (n : V3 R) :
+    (n.z < 0 ∧ planeNormalOf n = ⟨-n.x, -n.y, -n.z⟩) ∨ (¬ n.z < 0 ∧ planeNormalOf n = n) := by
+  unfold planeNormalOf
+  simp only [lit_zero, lit_one]
+  by_cases h : n.z < 0
+  · left; refine ⟨h, ?_⟩; rw [if_pos h]
+    apply V3.ext' <;> simp only [V3.smul_x, V3.smul_y, V3.smul_z] <;> ring
+  · right; exact ⟨h, by rw [if_neg h]⟩
+
+/-- … chosen so that its third component is not negative -/
+theorem plane_normal_nonneg (n : V3 R) : 0 ≤ (planeNormalOf n).z := by
+  rcases planeNormalOf_cases n with ⟨h, e⟩ | ⟨h, e⟩ <;> rw [e]
+  · simp only; linarith
+  · exact not_lt.mp h
+
+/-- it spans the same plane: `p·x = ±(n·x)`, in particular `p·x = 0 ↔ n·x = 0` … -/
+theorem plane_normal_dot (n x : V3 R) :
+    V3.dot (planeNormalOf n) x = V3.dot n x ∨ V3.dot (planeNormalOf n) x = -V3.dot n x := by
+  rcases planeNormalOf_cases n with ⟨_, e⟩ | ⟨_, e⟩ <;> rw [e]
+  · right; simp only [V3.dot_def]; ring
+  · left; rfl
+
+theorem plane_normal_same_plane (n x : V3 R) : V3.dot (planeNormalOf n) x = 0 ↔ V3.dot n x = 0 := by
+  rcases plane_normal_dot n x with e | e <;> rw [e]
+  exact neg_eq_zero
+
+/-- … and has the same length -/
+theorem plane_normal_normSq (n : V3 R) : V3.normSq (planeNormalOf n) = V3.normSq n := by
+  rcases planeNormalOf_cases n with ⟨_, e⟩ | ⟨_, e⟩ <;> rw [e]
+  simp only [V3.normSq_def]; ring
+
+/-- the sign the eigen-solver happened to return does not matter (unless the normal lies IN the xy plane, where both
+    orientations have third component 0 and the first one is kept) -/
+theorem planeNormalOf_neg (n : V3 R) (hz : n.z ≠ 0) :
+    planeNormalOf (⟨-n.x, -n.y, -n.z⟩ : V3 R) = planeNormalOf n := by
+  rcases planeNormalOf_cases n with ⟨h, e⟩ | ⟨h, e⟩
+  · rcases planeNormalOf_cases (⟨-n.x, -n.y, -n.z⟩ : V3 R) with ⟨h', e'⟩ | ⟨h', e'⟩
+    · simp only at h'; exfalso; linarith
+    · rw [e, e']
+  · have hpos : 0 < n.z := lt_of_le_of_ne (not_lt.mp h) (Ne.symm hz)
+    rcases planeNormalOf_cases (⟨-n.x, -n.y, -n.z⟩ : V3 R) with ⟨h', e'⟩ | ⟨h', e'⟩
+    · rw [e, e']; apply V3.ext' <;> simp
+    · simp only at h'; exfalso; linarith
+
+/-- the degenerate direction of the raw construction is never handed to it -/
+theorem plane_normal_ne_minus_z (n : V3 R) : planeNormalOf n ≠ ⟨0, 0, -1⟩ := by
+  intro h
+  have := plane_normal_nonneg n
+  rw [h] at this
+  simp only at this
+  linarith
+
+/-- **the quaternion is never singular**: for a unit division normal (either sign) the scalar part `w = 1 + p·z` is at
+    least 1 and the squared norm `2 (1 + p·z)` at least 2 — `normalize` never divides by `sqrt 0` -/
+theorem quat_never_singular (n : V3 R) (hn : V3.normSq n = 1) :
+    let q := quatOfNormal (planeNormalOf n)
+    1 ≤ q.1 ∧ 2 ≤ q.1 * q.1 + q.2.1 * q.2.1 + q.2.2.1 * q.2.2.1 + q.2.2.2 * q.2.2.2 := by
+  have hp : V3.normSq (planeNormalOf n) = 1 := (plane_normal_normSq n).trans hn
+  have hN := quat_normSq (planeNormalOf n) hp
+  have h0 := plane_normal_nonneg n
+  simp only at hN ⊢
+  rw [hN]
+  refine ⟨?_, by linarith⟩
+  simp only [quatOfNormal, V3.dot_def, lit_one, lit_zero]
+  linarith
+
+/-- third row of the rotation = the normal it was built from: `(M x).z = p·x` for every `x` (unit `p ≠ −z`, `sqrt` exact
+    on the squared norm of the quaternion) -/
+theorem quat_third_row (fn : Fn R) (p : V3 R) (hp : V3.normSq p = 1) (hne : p ≠ ⟨0, 0, -1⟩)
+    (hs : fn.sqrt (2 * (1 + p.z)) * fn.sqrt (2 * (1 + p.z)) = 2 * (1 + p.z)) (x : V3 R) :
+    (matDot (quatToMatrix (quatNormalize fn (quatOfNormal p))) x).z = V3.dot p x := by
+  have hN := quat_normSq p hp
+  have hnz : 2 * (1 + p.z) ≠ 0 := by
+    intro h0
+    exact hne ((quat_norm_zero_iff p hp).1 (by simp only at hN ⊢; rw [hN]; exact h0))
+  set s := fn.sqrt (2 * (1 + p.z)) with hsdef
+  have hs0 : s ≠ 0 := by
+    intro h0; rw [h0] at hs; exact hnz (by linarith)
+  have hr : s⁻¹ * s⁻¹ * (2 * (1 + p.z)) = 1 := by
+    rw [← hs]; field_simp
+  have hnorm : fn.sqrt ((1 + (p.x * 0 + p.y * 0 + p.z * 1)) * (1 + (p.x * 0 + p.y * 0 + p.z * 1)) +
+      (p.y * 1 - p.z * 0) * (p.y * 1 - p.z * 0) + (p.z * 0 - p.x * 1) * (p.z * 0 - p.x * 1) +
+      (p.x * 0 - p.y * 0) * (p.x * 0 - p.y * 0)) = s := by
+    rw [hsdef]; congr 1
+    simp only [V3.normSq_def] at hp
+    linear_combination hp
+  simp only [V3.normSq_def] at hp
+  generalize hr' : s⁻¹ = r at hr
+  simp only [quatOfNormal, quatNormalize, quatToMatrix, matDot, V3.dot_def, V3.cross_def, lit_one, lit_zero, lit_two, hnorm,
+    div_eq_mul_inv, hr']
+  linear_combination (x.x * p.x + x.y * p.y - x.z * (1 - p.z)) * hr + (-2 * x.z * r ^ 2) * hp
+
+/-- **no guard any more**: for EVERY unit division normal `n` the rotation of `map_points_to_xy_plane` maps the oriented
+    normal `p = planeNormalOf n` to `z` … -/
+theorem quat_maps_plane_normal (fn : Fn R) (n : V3 R) (hn : V3.normSq n = 1)
+    (hs : fn.sqrt (2 * (1 + (planeNormalOf n).z)) * fn.sqrt (2 * (1 + (planeNormalOf n).z)) = 2 * (1 + (planeNormalOf n).z)) :
+    matDot (quatToMatrix (quatNormalize fn (quatOfNormal (planeNormalOf n)))) (planeNormalOf n) = ⟨0, 0, 1⟩ :=
+  quat_maps_normal fn _ ((plane_normal_normSq n).trans hn) (plane_normal_ne_minus_z n) hs
+
+/-- … hence the division plane `{x : n·x = 0}` into the xy plane -/
+theorem quat_maps_plane (fn : Fn R) (n : V3 R) (hn : V3.normSq n = 1)
+    (hs : fn.sqrt (2 * (1 + (planeNormalOf n).z)) * fn.sqrt (2 * (1 + (planeNormalOf n).z)) = 2 * (1 + (planeNormalOf n).z))
+    (x : V3 R) (hx : V3.dot n x = 0) :
+    (matDot (quatToMatrix (quatNormalize fn (quatOfNormal (planeNormalOf n)))) x).z = 0 := by
+  rw [quat_third_row fn _ ((plane_normal_normSq n).trans hn) (plane_normal_ne_minus_z n) hs x]
+  exact (plane_normal_same_plane n x).2 hx
+
 /-- the shortcut of the code (`z·n == 1.0` ⇒ identity matrix) is taken only for `n = z` -/
 theorem identity_case_sound (n : V3 R) (hn : V3.normSq n = 1) (h : isIdentityCase n = true) :
     n = ⟨0, 0, 1⟩ := by
@@ -141,6 +253,20 @@ theorem identity_case_sound (n : V3 R) (hn : V3.normSq n = 1) (h : isIdentityCas
     have := mul_self_nonneg n.x; have := mul_self_nonneg n.y
     exact mul_self_eq_zero.mp (by linarith)
   exact V3.ext' hx hy hz
+
+/-- with the orientation step in front, the shortcut is taken exactly for the two normals of the xy plane -/
+theorem identity_case_normal (n : V3 R) (hn : V3.normSq n = 1) (h : isIdentityCase (planeNormalOf n) = true) :
+    planeNormalOf n = ⟨0, 0, 1⟩ ∧ (n = ⟨0, 0, 1⟩ ∨ n = ⟨0, 0, -1⟩) := by
+  have hp := identity_case_sound (planeNormalOf n) ((plane_normal_normSq n).trans hn) h
+  refine ⟨hp, ?_⟩
+  rcases planeNormalOf_cases n with ⟨_, e⟩ | ⟨_, e⟩
+  · right
+    rw [e] at hp
+    have hx : -n.x = 0 := congrArg V3.x hp
+    have hy : -n.y = 0 := congrArg V3.y hp
+    have hz : -n.z = 1 := congrArg V3.z hp
+    exact V3.ext' (by simpa using hx) (by simpa using hy) (by simp only; linarith)
+  · left; rw [← e]; exact hp
 
 /-- **round trip**: a point whose image has third coordinate `0` (it lies on the division plane) comes back to where
     it was — `map_points_to_division_plane ∘ map_points_to_xy_plane = id` for the rotation of any unit quaternion -/
